@@ -1,0 +1,105 @@
+//go:build verif
+
+package reader
+
+// Contracts for the govc verifier (see /verif/DESIGN.md). Comment-only: declares nothing.
+
+// ---- C15: the start-up snapshot of dropped collections and partitions ---------------------------------------------
+// GetAllDroppedObj scans the source catalog once.  For the duration of the scan the downstream's answer to "which
+// database holds collection c of source database d" is a function of (c, d) (the downstream catalog is not changed by
+// the scan; assumed), and so is the test for its "database not found" error.
+//@ ufunc tgtDBName (String String) String
+//@ ufunc tgtDBFails (String String) Bool
+//@ trusted func (github.com/zilliztech/milvus-cdc/core/api.TargetAPI).GetDatabaseName
+//@   params recv ctx collectionName databaseName
+//@   ensures result0 == tgtDBName(collectionName, databaseName) && (result1 != nil) == tgtDBFails(collectionName, databaseName)
+//@   modifies nothing
+
+//@ func IsDatabaseNotFoundError
+//@   props C15
+//@   ensures [only-an-error-is-a-database-not-found-error] result ==> err != nil
+//@   modifies nothing
+//@   panics never
+
+// the source database of a collection id, as the reader's id tables record it ("" = unknown or gone)
+//@ spec srcDBID(e *EtcdOp, cid int64) int64 = ite(umHas(e.collectionID2DBID, cid), umGet(e.collectionID2DBID, cid), -1)
+//@ spec srcDB(e *EtcdOp, cid int64) string = ite(srcDBID(e, cid) == 0, "", ite(umHas(e.dbID2Name, srcDBID(e, cid)), umGet(e.dbID2Name, srcDBID(e, cid)), ""))
+// the database under which the writer will look the object up: the downstream's name when the downstream is a Milvus,
+// the source name otherwise
+//@ spec dstDB(e *EtcdOp, coll string, cid int64) string = ite(e.targetMilvus != nil, tgtDBName(coll, srcDB(e, cid)), srcDB(e, cid))
+// objects whose database is unknown, or unknown downstream, take no part in the snapshot
+//@ spec scanSkips(e *EtcdOp, coll string, cid int64) bool = srcDB(e, cid) == "" || (e.targetMilvus != nil && tgtDBFails(coll, srcDB(e, cid)))
+
+//@ spec cDropKey(e *EtcdOp, c *pb.CollectionInfo) string = collKey(dstDB(e, c.Schema.Name, c.ID), c.Schema.Name) + "_d"
+//@ spec cGone(c *pb.CollectionInfo) bool = c.State == pb.CollectionState_CollectionDropped || c.State == pb.CollectionState_CollectionDropping
+//@ spec cLive(c *pb.CollectionInfo) bool = c.State == pb.CollectionState_CollectionCreated || c.State == pb.CollectionState_CollectionCreating
+//@ spec cScanned(e *EtcdOp, c *pb.CollectionInfo) bool = !scanSkips(e, c.Schema.Name, c.ID)
+
+//@ spec pCollName(e *EtcdOp, p *pb.PartitionInfo) string = ite(umHas(e.collectionID2Name, p.CollectionId), umGet(e.collectionID2Name, p.CollectionId), "")
+//@ spec pDropKey(e *EtcdOp, p *pb.PartitionInfo) string = partKey(dstDB(e, pCollName(e, p), p.CollectionId), pCollName(e, p), p.PartitionName) + "_d"
+//@ spec pGone(p *pb.PartitionInfo) bool = p.State == pb.PartitionState_PartitionDropped || p.State == pb.PartitionState_PartitionDropping
+//@ spec pLive(p *pb.PartitionInfo) bool = p.State == pb.PartitionState_PartitionCreated || p.State == pb.PartitionState_PartitionCreating
+//@ spec pScanned(e *EtcdOp, p *pb.PartitionInfo) bool = pCollName(e, p) != "" && !scanSkips(e, pCollName(e, p), p.CollectionId)
+
+// below(t): the time just below t, as the code computes it (exact 64-bit arithmetic)
+//@ spec below(t uint64) uint64 = wrapU64(t - 1)
+// at(j) = j: marks the index in "for every scanned object" facts, so that the witnesses of the "only if" facts do not
+// start a matching loop with them
+//@ ufunc at (Int) Int
+//@ smtaxiom atIsIdentity: (forall ((j Int)) (! (= (at j) j) :pattern ((at j))))
+// what the collection scan has established for the incarnations collections[0..n]: rc = names with a dropped
+// incarnation, cc = creation time of a live incarnation per name
+//@ spec cDropsOnlyIfSeen(e *EtcdOp, collections []*pb.CollectionInfo, n int, rc map[string]uint64) bool = forall k string :: {mhas(rc, k)} k in rc ==> (exists j int :: {collections[j]} 0 <= j && j <= n && cScanned(e, collections[j]) && cGone(collections[j]) && cDropKey(e, collections[j]) == k)
+//@ spec cDropsIfSeen(e *EtcdOp, collections []*pb.CollectionInfo, n int, rc map[string]uint64) bool = forall j int :: {at(j)} 0 <= j && j <= n && cScanned(e, collections[at(j)]) && cGone(collections[at(j)]) ==> cDropKey(e, collections[at(j)]) in rc
+//@ spec cLiveOnlyIfSeen(e *EtcdOp, collections []*pb.CollectionInfo, n int, cc map[string]uint64) bool = forall k string :: {mhas(cc, k)} k in cc ==> (exists j int :: {collections[j]} 0 <= j && j <= n && cScanned(e, collections[j]) && cLive(collections[j]) && cDropKey(e, collections[j]) == k && cc[k] == collections[j].CreateTime)
+//@ spec cLiveIfSeen(e *EtcdOp, collections []*pb.CollectionInfo, n int, cc map[string]uint64) bool = forall j int :: {at(j)} 0 <= j && j <= n && cScanned(e, collections[at(j)]) && cLive(collections[at(j)]) ==> cDropKey(e, collections[at(j)]) in cc
+
+//@ spec pDropsOnlyIfSeen(e *EtcdOp, partitions []*pb.PartitionInfo, n int, rp map[string]uint64) bool = forall k string :: {mhas(rp, k)} k in rp ==> (exists j int :: {partitions[j]} 0 <= j && j <= n && pScanned(e, partitions[j]) && pGone(partitions[j]) && pDropKey(e, partitions[j]) == k)
+//@ spec pDropsIfSeen(e *EtcdOp, partitions []*pb.PartitionInfo, n int, rp map[string]uint64) bool = forall j int :: {at(j)} 0 <= j && j <= n && pScanned(e, partitions[at(j)]) && pGone(partitions[at(j)]) ==> pDropKey(e, partitions[at(j)]) in rp
+//@ spec pLiveOnlyIfSeen(e *EtcdOp, partitions []*pb.PartitionInfo, n int, cp map[string]uint64) bool = forall k string :: {mhas(cp, k)} k in cp ==> (exists j int :: {partitions[j]} 0 <= j && j <= n && pScanned(e, partitions[j]) && pLive(partitions[j]) && pDropKey(e, partitions[j]) == k && cp[k] == partitions[j].PartitionCreatedTimestamp)
+//@ spec pLiveIfSeen(e *EtcdOp, partitions []*pb.PartitionInfo, n int, cp map[string]uint64) bool = forall j int :: {at(j)} 0 <= j && j <= n && pScanned(e, partitions[at(j)]) && pLive(partitions[at(j)]) ==> pDropKey(e, partitions[at(j)]) in cp
+// a table the loop leaves alone / whose set of names it leaves alone (before(): the state in which the loop was entered)
+//@ spec sameAsBefore(m map[string]uint64) bool = forall k string :: {mhas(m, k)} (k in m) == before(k in m) && m[k] == before(m[k])
+//@ spec sameNamesAsBefore(m map[string]uint64) bool = forall k string :: {mhas(m, k)} (k in m) == before(k in m)
+// all four facts about a finished scan
+//@ spec cScanDone(e *EtcdOp, collections []*pb.CollectionInfo, rc map[string]uint64, cc map[string]uint64) bool = cDropsOnlyIfSeen(e, collections, len(collections) - 1, rc) && cDropsIfSeen(e, collections, len(collections) - 1, rc) && cLiveOnlyIfSeen(e, collections, len(collections) - 1, cc) && cLiveIfSeen(e, collections, len(collections) - 1, cc)
+//@ spec pScanDone(e *EtcdOp, partitions []*pb.PartitionInfo, rp map[string]uint64, cp map[string]uint64) bool = pDropsOnlyIfSeen(e, partitions, len(partitions) - 1, rp) && pDropsIfSeen(e, partitions, len(partitions) - 1, rp) && pLiveOnlyIfSeen(e, partitions, len(partitions) - 1, cp) && pLiveIfSeen(e, partitions, len(partitions) - 1, cp)
+// the recorded time of every name: just below the creation time recorded for a live incarnation of the name, else just below now
+//@ spec timesFinal(r map[string]uint64, c map[string]uint64, tt uint64) bool = forall k string :: {mhas(r, k)} k in r ==> r[k] == ite(k in c, below(c[k]), below(tt))
+//@ spec timesInitial(r map[string]uint64, tt uint64) bool = forall k string :: {mhas(r, k)} k in r ==> r[k] == below(tt)
+
+//@ func (*EtcdOp).GetAllDroppedObj
+//@   props C15
+//@   requires e != nil && e.etcdClient != nil
+//@   opaque getDatabases internalGetAllCollection internalGetAllPartition
+//@   unreachable return@2 return@3 return@4 return@5 return@6 return@7
+// collections
+//@   ensures [a-collection-name-has-an-entry-only-if-a-scanned-incarnation-of-it-is-dropped] cDropsOnlyIfSeen(e, collections, len(collections) - 1, mget(result, "collection"))
+//@   ensures [every-scanned-dropped-collection-incarnation-gives-its-name-an-entry] cDropsIfSeen(e, collections, len(collections) - 1, mget(result, "collection"))
+//@   ensures [a-collection-name-with-a-live-incarnation-is-recorded-just-below-the-creation-of-a-live-incarnation] forall k string :: {mhas(mget(result, "collection"), k)} k in mget(result, "collection") && (exists j int :: 0 <= j && j < len(collections) && cScanned(e, collections[at(j)]) && cLive(collections[at(j)]) && cDropKey(e, collections[at(j)]) == k) ==> (exists j int :: {collections[j]} 0 <= j && j < len(collections) && cScanned(e, collections[j]) && cLive(collections[j]) && cDropKey(e, collections[j]) == k && mget(result, "collection")[k] == below(collections[j].CreateTime))
+//@   ensures [a-collection-name-without-live-incarnation-is-recorded-just-below-the-current-time] forall k string :: {mhas(mget(result, "collection"), k)} k in mget(result, "collection") && !(exists j int :: {collections[j]} 0 <= j && j < len(collections) && cScanned(e, collections[j]) && cLive(collections[j]) && cDropKey(e, collections[j]) == k) ==> mget(result, "collection")[k] == below(tt)
+// partitions
+//@   ensures [a-partition-name-has-an-entry-only-if-a-scanned-incarnation-of-it-is-dropped] pDropsOnlyIfSeen(e, partitions, len(partitions) - 1, mget(result, "partition"))
+//@   ensures [every-scanned-dropped-partition-incarnation-gives-its-name-an-entry] pDropsIfSeen(e, partitions, len(partitions) - 1, mget(result, "partition"))
+//@   ensures [a-partition-name-with-a-live-incarnation-is-recorded-just-below-the-creation-of-a-live-incarnation] forall k string :: {mhas(mget(result, "partition"), k)} k in mget(result, "partition") && (exists j int :: 0 <= j && j < len(partitions) && pScanned(e, partitions[at(j)]) && pLive(partitions[at(j)]) && pDropKey(e, partitions[at(j)]) == k) ==> (exists j int :: {partitions[j]} 0 <= j && j < len(partitions) && pScanned(e, partitions[j]) && pLive(partitions[j]) && pDropKey(e, partitions[j]) == k && mget(result, "partition")[k] == below(partitions[j].PartitionCreatedTimestamp))
+//@   ensures [a-partition-name-without-live-incarnation-is-recorded-just-below-the-current-time] forall k string :: {mhas(mget(result, "partition"), k)} k in mget(result, "partition") && !(exists j int :: {partitions[j]} 0 <= j && j < len(partitions) && pScanned(e, partitions[j]) && pLive(partitions[j]) && pDropKey(e, partitions[j]) == k) ==> mget(result, "partition")[k] == below(tt)
+// loop 1: the collection scan
+//@   loop 1 invariant [drops-only-if] cDropsOnlyIfSeen(e, collections, rangeindex, mget(res, "collection"))
+//@   loop 1 invariant [drops-if] cDropsIfSeen(e, collections, rangeindex, mget(res, "collection"))
+//@   loop 1 invariant [live-only-if] cLiveOnlyIfSeen(e, collections, rangeindex, createdCollection)
+//@   loop 1 invariant [live-if] cLiveIfSeen(e, collections, rangeindex, createdCollection)
+//@   loop 1 invariant [value] timesInitial(mget(res, "collection"), tt)
+//@   loop 1 invariant [parts-empty] forall k string :: !(k in mget(res, "partition")) && !(k in createdPartition)
+// loop 2: the partition scan (leaves the two collection tables as they are)
+//@   loop 2 invariant [collection-tables-untouched] sameAsBefore(mget(res, "collection")) && sameAsBefore(createdCollection)
+//@   loop 2 invariant [drops-only-if] pDropsOnlyIfSeen(e, partitions, rangeindex, mget(res, "partition"))
+//@   loop 2 invariant [drops-if] pDropsIfSeen(e, partitions, rangeindex, mget(res, "partition"))
+//@   loop 2 invariant [live-only-if] pLiveOnlyIfSeen(e, partitions, rangeindex, createdPartition)
+//@   loop 2 invariant [live-if] pLiveIfSeen(e, partitions, rangeindex, createdPartition)
+//@   loop 2 invariant [value] timesInitial(mget(res, "partition"), tt)
+// loop 3: collection names with a live incarnation get the time just below its creation
+//@   loop 3 invariant [only-times-of-collection-names-change] sameNamesAsBefore(mget(res, "collection")) && sameAsBefore(createdCollection) && sameAsBefore(mget(res, "partition")) && sameAsBefore(createdPartition)
+//@   loop 3 invariant [value] forall k string :: {mhas(mget(res, "collection"), k)} k in mget(res, "collection") ==> mget(res, "collection")[k] == ite(visited(k) && k in createdCollection, below(createdCollection[k]), below(tt))
+// loop 4: the same for partition names
+//@   loop 4 invariant [only-times-of-partition-names-change] sameNamesAsBefore(mget(res, "partition")) && sameAsBefore(createdPartition) && sameAsBefore(mget(res, "collection")) && sameAsBefore(createdCollection)
+//@   loop 4 invariant [value] forall k string :: {mhas(mget(res, "partition"), k)} k in mget(res, "partition") ==> mget(res, "partition")[k] == ite(visited(k) && k in createdPartition, below(createdPartition[k]), below(tt))
